@@ -45,6 +45,8 @@ func checkC38(c *core.Ctx) {
 	ruleDecodeErrorsAreClientErrors(c)
 	ruleReadErrorsMapped(c)
 	ruleNoPanicInDecoders(c)
+	ruleUncheckedAssertionsOnDecodedJSON(c)
+	ruleDateFilterValidated(c)
 }
 
 // decodeCallees: functions whose error means "the client sent something malformed".
@@ -128,6 +130,23 @@ func ruleDecodeErrorsAreClientErrors(c *core.Ctx) {
 						return true
 					}
 					c.Check(len(bad) == 0 && wrote > 0, "HTTP/decode-error", key, pos(c, is), fmt.Sprintf("%s error → 4xx", callee), fmt.Sprintf("an error from %s (malformed client input) is answered %v: invalid input must yield a 4xx, not a server error", callee, bad))
+					// the only decoding error a handler may wave through is io.EOF (no body at all)
+					var tolerated []string
+					ast.Inspect(is.Cond, func(y ast.Node) bool {
+						call, ok := y.(*ast.CallExpr)
+						if !ok || len(call.Args) != 2 {
+							return true
+						}
+						if f := astx.Callee(info, call); f != nil && f.Pkg() != nil && f.Pkg().Path() == "errors" && f.Name() == "Is" {
+							if t := types.ExprString(call.Args[1]); t != "io.EOF" {
+								tolerated = append(tolerated, t)
+							}
+						}
+						return true
+					})
+					if len(tolerated) > 0 {
+						c.Fail("HTTP/decode-error", key+":tolerates", pos(c, is), fmt.Sprintf("the %s error is ignored when it is %v: a malformed (truncated) body is accepted and the request is carried out with whatever was decoded", callee, tolerated))
+					}
 					return true
 				})
 			}
@@ -292,7 +311,7 @@ func ruleReadErrorsMapped(c *core.Ctx) {
 
 // invariantPanics: panics on the decoding paths that no input can trigger; one line of reason each.
 var invariantPanics = map[string]string{
-	"internal/controller/ledger.TxToScriptData":   "the three lookups read maps filled in the same function from the same postings a few lines above",
+	"internal/controller/ledger.TxToScriptData":    "the three lookups read maps filled in the same function from the same postings a few lines above",
 	"internal.(LogType).String":                    "called on values produced by LogTypeFromString / constants only; an out-of-range LogType cannot be decoded from JSON",
 	"internal/queries.FieldTypeToString":           "type switch over the closed set of FieldType implementations of this package",
 	"internal/machine/vm/program.(Program).String": "debug rendering of compiler output",
